@@ -152,7 +152,7 @@ func mkCorpus(dir string) {
 	}
 	c := baseWorld()
 	c.Evs = []Ev{{Kind: "ds", Round: 50, RIndex: 1, Idx: 0, VType: 2, Signs: []Sign{sg(0, 7, 50, 1, 2), sg(0, 7, 50, 1, 2)}}}
-	put("w1_same_signature_twice.json", "one honest prevote signature listed twice", c)
+	put("w1_same_signature_twice.json", "regression (fixed 0c3d6f7): one honest prevote signature listed twice must be refused", c)
 	c = baseWorld()
 	c.Evs = []Ev{{Kind: "ds", Round: 50, RIndex: 1, Idx: 0, VType: 2, Signs: []Sign{sg(0, 7, 50, 1, 2), sg(0, 8, 50, 1, 3)}}}
 	put("w2_prevote_and_precommit.json", "honest prevote(A) and honest precommit(B) of the same round/index", c)
@@ -162,13 +162,18 @@ func mkCorpus(dir string) {
 	c = baseWorld()
 	c.Cfg.Fraction = 0
 	c.Evs = []Ev{{Kind: "ds", Round: 50, RIndex: 1, Idx: 0, VType: 2, Signs: []Sign{sg(0, 7, 50, 1, 2), sg(0, 8, 50, 1, 2)}}}
-	put("w4_zero_penalty_builder_only.json", "real equivocation, penalty fraction 0: builder expels, slash data stays empty, validator replay keeps the validator online", c)
+	put("w4_zero_penalty_builder_only.json", "regression (fixed e1d256e): real equivocation, penalty fraction 0: the builder expels the signer and must put the evidence into the slash data so that the replay expels it too", c)
 	c = baseWorld()
 	c.Evs = []Ev{{Kind: "ds", Round: 50, RIndex: 1, Idx: 0, VType: 2, Signs: []Sign{sg(0, 7, 50, 1, 2), sg(0, 8, 50, 1, 2)}}}
 	c.Vals[0].Dlgs = []Dlg{{D: 1, Stake: "4", Token: "4000000000000000000"}}
 	c.Vals[0].Token, c.Vals[0].Stake = "14000000000000000000", "14"
 	c.Queue = []WRec{{Val: 0, D: 0, Finished: 0, Final: "100000000000000000"}, {Val: 0, D: 1, Finished: 0, Final: "50000000000000000"}, {Val: 0, D: 0, Finished: 1, Final: "7"}}
 	put("r1_real_equivocation.json", "two different prevotes: accepted once, 2% taken from withdrawals, self stake and delegation", c)
+	c = baseWorld()
+	c.Evs = []Ev{{Kind: "ds", Round: 50, RIndex: 1, Idx: 0, VType: 2, Signs: []Sign{sg(0, 7, 50, 1, 2), sg(0, 8, 50, 1, 2)}}}
+	head := uint64(57)
+	c.Head = &head
+	put("h1_head_is_not_the_parent.json", "regression (fixed ec9154c): block 51 built/validated while the local head is 57: the evidence of round 50 must still be judged against parent height 50", c)
 	c = baseWorld()
 	c.Headers = append(c.Headers, Hdr{Num: 0, Set: 0})
 	c.Mode = "voter"
